@@ -446,4 +446,223 @@ theorem selectProofsToSend_succeeds {srt : Sorter} (hs : srt.OK) {m : Mint} {pro
   rw [if_neg (post_good (finalSt_post hs m proofs amount inc) hn hA)]
   exact ⟨_, rfl⟩
 
+/-! ## selectProofsForAmount -/
+
+theorem NoWrap.left {m : Mint} {inc : Bool} {a b : List P} (hn : NoWrap m inc (a ++ b)) : NoWrap m inc a := by
+  have h := List.Perm.refl (a ++ b)
+  have h1 := amountN_le_of_sub h
+  have h2 := feeOptN_le_of_sub m inc h
+  have h3 := ppkSum_le_of_sub m h
+  have hv := hn.value
+  exact ⟨by omega, fun hi => by have := hn.ppk hi; omega⟩
+
+theorem NoWrap.right {m : Mint} {inc : Bool} {a b : List P} (hn : NoWrap m inc (a ++ b)) : NoWrap m inc b := by
+  have h : (b ++ a).Perm (a ++ b) := List.perm_append_comm
+  have h1 := amountN_le_of_sub h
+  have h2 := feeOptN_le_of_sub m inc h
+  have h3 := ppkSum_le_of_sub m h
+  have hv := hn.value
+  exact ⟨by omega, fun hi => by have := hn.ppk hi; omega⟩
+
+/-- What `selectProofsForAmount` holds after its inactive-keyset block: some sub-multiset of the inactive
+    proofs (all of them, the inner selection, or nothing when the inner selection failed) and its fee. -/
+theorem inactivePart_spec {srt : Sorter} (hs : srt.OK) (m : Mint) (inactive : List P) (amount : UInt64) (inc : Bool) :
+    (∃ rest, ((inactivePart srt m inactive amount inc).1 ++ rest).Perm inactive) ∧
+    (inactivePart srt m inactive amount inc).2 = feeOpt m inc (inactivePart srt m inactive amount inc).1 := by
+  unfold inactivePart
+  split
+  · simp only []
+    refine ⟨?_, by cases inc <;> simp [feeOpt]⟩
+    split
+    · exact ⟨[], by simp⟩
+    · cases hps : selectProofsToSend srt m inactive amount inc with
+      | ok ps => exact (selectProofsToSend_ok_u64 hs hps).1
+      | errBalance => exact ⟨inactive, by simp [SelResult.proofsDroppingError]⟩
+      | errFunds a f t => exact ⟨inactive, by simp [SelResult.proofsDroppingError]⟩
+  · exact ⟨⟨inactive, by simp⟩, (feeOpt_nil m inc).symm⟩
+
+theorem selectProofsForAmount_eq (srt : Sorter) (m : Mint) (inactive active : List P) (amount : UInt64) (inc : Bool) :
+    selectProofsForAmount srt m inactive active amount inc =
+      let r := inactivePart srt m inactive amount inc
+      if proofsAmount r.1 ≥ amount + r.2 then .ok r.1
+      else match selectProofsToSend srt m active (amount + r.2 - proofsAmount r.1) inc with
+        | .ok ps => .ok (r.1 ++ ps)
+        | e => e := by
+  unfold selectProofsForAmount
+  rfl
+
+/-- ℕ-level soundness of a successful `selectProofsForAmount`: a sub-multiset of the holdings worth at least
+    the amount plus the fee of the selected proofs (`⌈a⌉+⌈b⌉ ≥ ⌈a+b⌉` joins the two parts). -/
+theorem selectProofsForAmount_ok_nat {srt : Sorter} (hs : srt.OK) {m : Mint} {inactive active sel : List P}
+    {amount : UInt64} {inc : Bool} (h : selectProofsForAmount srt m inactive active amount inc = .ok sel)
+    (hn : NoWrap m inc (inactive ++ active))
+    (hA : amount.toNat + feeOptN m inc inactive + feeOptN m inc active < 2 ^ 64) :
+    (∃ rest, (sel ++ rest).Perm (inactive ++ active)) ∧ amount.toNat + feeOptN m inc sel ≤ amountN sel := by
+  rw [selectProofsForAmount_eq] at h
+  obtain ⟨⟨restI, hpI⟩, hfee⟩ := inactivePart_spec hs m inactive amount inc
+  generalize inactivePart srt m inactive amount inc = r at h hpI hfee
+  obtain ⟨selected, fees⟩ := r
+  simp only [] at h hpI hfee
+  subst hfee
+  obtain ⟨i1, i2, i3, i4⟩ := hn.left.sub hpI
+  have hA' := amount.toNat_lt
+  split at h
+  · rename_i hge
+    injection h with h
+    subst h
+    refine ⟨⟨restI ++ active, ?_⟩, ?_⟩
+    · rw [← List.append_assoc]; exact hpI.append_right active
+    · rw [ge_iff_le, UInt64.le_iff_toNat_le, UInt64.toNat_add, i3, i4, Nat.mod_eq_of_lt (by omega)] at hge
+      exact hge
+  · rename_i hlt
+    rw [ge_iff_le, UInt64.le_iff_toNat_le, UInt64.toNat_add, i3, i4, Nat.mod_eq_of_lt (by omega)] at hlt
+    split at h
+    · rename_i ps hps
+      injection h with h
+      subst h
+      obtain ⟨⟨restA, hpA⟩, hge, _⟩ := selectProofsToSend_ok_u64 hs hps
+      obtain ⟨a1, a2, a3, a4⟩ := hn.right.sub hpA
+      refine ⟨⟨restI ++ restA, ?_⟩, ?_⟩
+      · have : (selected ++ ps ++ (restI ++ restA)).Perm ((selected ++ restI) ++ (ps ++ restA)) := by
+          simp only [List.append_assoc]
+          refine List.Perm.append_left _ ?_
+          rw [← List.append_assoc, ← List.append_assoc]
+          exact List.Perm.append_right _ List.perm_append_comm
+        exact this.trans (hpI.append hpA)
+      · have hf := feeOptN_append_le m inc selected ps
+        rw [UInt64.lt_iff_toNat_lt, UInt64.toNat_add, UInt64.toNat_sub, UInt64.toNat_add, a3, a4, i3, i4] at hge
+        rw [amountN_append]
+        omega
+    · rename_i hne
+      cases hres : selectProofsToSend srt m active (amount + feeOpt m inc selected - proofsAmount selected) inc with
+      | ok ps => exact absurd hres (hne ps)
+      | errBalance => rw [hres] at h; exact SelResult.noConfusion h
+      | errFunds a f t => rw [hres] at h; exact SelResult.noConfusion h
+
+theorem inactivePart_of_ne (srt : Sorter) (m : Mint) {inactive : List P} (hne : inactive ≠ []) (amount : UInt64)
+    (inc : Bool) :
+    inactivePart srt m inactive amount inc =
+      ((if proofsAmount inactive < amount then inactive
+        else (selectProofsToSend srt m inactive amount inc).proofsDroppingError),
+       feeOpt m inc (if proofsAmount inactive < amount then inactive
+        else (selectProofsToSend srt m inactive amount inc).proofsDroppingError)) := by
+  have hlen : inactive.length > 0 := by
+    cases inactive with
+    | nil => exact absurd rfl hne
+    | cons x xs => simp
+  unfold inactivePart
+  rw [if_pos hlen]
+  cases inc <;> simp [feeOpt]
+
+/-- The four ways through the inactive-keyset block. -/
+theorem inactivePart_cases (srt : Sorter) (m : Mint) (inactive : List P) (amount : UInt64) (inc : Bool) :
+    (inactive = [] ∧ inactivePart srt m inactive amount inc = ([], 0)) ∨
+    (proofsAmount inactive < amount ∧ inactivePart srt m inactive amount inc = (inactive, feeOpt m inc inactive)) ∨
+    (¬ proofsAmount inactive < amount ∧ ∃ ps, selectProofsToSend srt m inactive amount inc = .ok ps ∧
+        inactivePart srt m inactive amount inc = (ps, feeOpt m inc ps)) ∨
+    (¬ proofsAmount inactive < amount ∧ (∀ ps, selectProofsToSend srt m inactive amount inc ≠ .ok ps) ∧
+        inactivePart srt m inactive amount inc = ([], 0)) := by
+  by_cases hnil : inactive = []
+  · subst hnil
+    exact Or.inl ⟨rfl, by simp [inactivePart]⟩
+  · have e := inactivePart_of_ne srt m hnil amount inc
+    by_cases hlt : proofsAmount inactive < amount
+    · refine Or.inr (Or.inl ⟨hlt, ?_⟩)
+      rw [e, if_pos hlt]
+    · rw [if_neg hlt] at e
+      cases hres : selectProofsToSend srt m inactive amount inc with
+      | ok ps =>
+        refine Or.inr (Or.inr (Or.inl ⟨hlt, ps, rfl, ?_⟩))
+        rw [e, hres]; rfl
+      | errBalance =>
+        refine Or.inr (Or.inr (Or.inr ⟨hlt, fun ps h => SelResult.noConfusion h, ?_⟩))
+        rw [e, hres]; simp only [SelResult.proofsDroppingError, feeOpt_nil]
+      | errFunds a f t =>
+        refine Or.inr (Or.inr (Or.inr ⟨hlt, fun ps h => SelResult.noConfusion h, ?_⟩))
+        rw [e, hres]; simp only [SelResult.proofsDroppingError, feeOpt_nil]
+
+/-- The exact condition under which the two-stage selection of `selectProofsForAmount` is guaranteed to
+    return proofs.  `whole`: when the inactive proofs are worth less than the amount they are all taken and
+    the active proofs must cover the rest plus BOTH rounded-up fees; `inner`: otherwise either the inactive
+    proofs cover amount + their fee (the inner selection then succeeds) or — because a failed inner selection
+    discards every inactive proof — the active proofs alone cover amount + their fee. -/
+structure Affordable (m : Mint) (inc : Bool) (inactive active : List P) (amount : UInt64) : Prop where
+  whole : amountN inactive < amount.toNat →
+    amount.toNat + feeOptN m inc inactive + feeOptN m inc active ≤ amountN inactive + amountN active
+  inner : amount.toNat ≤ amountN inactive →
+    amount.toNat + feeOptN m inc inactive ≤ amountN inactive ∨
+    amount.toNat + feeOptN m inc active ≤ amountN active
+
+theorem selectProofsForAmount_succeeds {srt : Sorter} (hs : srt.OK) {m : Mint} {inactive active : List P}
+    {amount : UInt64} {inc : Bool} (hn : NoWrap m inc (inactive ++ active))
+    (hA : amount.toNat + feeOptN m inc inactive + feeOptN m inc active < 2 ^ 64)
+    (haff : Affordable m inc inactive active amount) :
+    ∃ sel, selectProofsForAmount srt m inactive active amount inc = .ok sel := by
+  rw [selectProofsForAmount_eq]
+  have hA' := amount.toNat_lt
+  have hnI := hn.left
+  have hnA := hn.right
+  obtain ⟨_, _, iI3, iI4⟩ := hnI.sub (rest := []) (sel := inactive) (by simp)
+  -- the active call with a remaining amount `rem` that it can afford
+  have active_ok : ∀ (sel0 : List P) (rem : UInt64), rem.toNat + feeOptN m inc active ≤ amountN active →
+      ∃ sel, (match selectProofsToSend srt m active rem inc with
+        | .ok ps => SelResult.ok (sel0 ++ ps)
+        | e => e) = .ok sel := by
+    intro sel0 rem hrem
+    obtain ⟨ps, hps⟩ := selectProofsToSend_succeeds hs hnA hrem
+    exact ⟨sel0 ++ ps, by rw [hps]⟩
+  rcases inactivePart_cases srt m inactive amount inc with ⟨hnil, hr⟩ | ⟨hlt, hr⟩ | ⟨hge, ps, hps, hr⟩ | ⟨hge, hfail, hr⟩
+  · -- no inactive proofs
+    subst hnil
+    rw [hr]
+    simp only []
+    split
+    · exact ⟨_, rfl⟩
+    · rename_i hlt
+      rw [ge_iff_le, UInt64.le_iff_toNat_le] at hlt
+      have hw := haff.whole
+      have : proofsAmount ([] : List P) = 0 := rfl
+      simp only [this, UInt64.toNat_add, UInt64.toNat_zero] at hlt
+      refine active_ok [] _ ?_
+      have h0 : feeOptN m inc [] = 0 := by cases inc <;> simp [feeOptN, feeN, ceilDiv1000]
+      rw [show amount + 0 - proofsAmount ([] : List P) = amount from UInt64.toNat_inj.1 (by simp [this])]
+      simp only [amountN_nil, h0] at hw
+      omega
+  · -- every inactive proof is taken
+    rw [hr]
+    simp only []
+    rw [UInt64.lt_iff_toNat_lt, iI3] at hlt
+    have hw := haff.whole hlt
+    split
+    · exact ⟨_, rfl⟩
+    · refine active_ok _ _ ?_
+      rw [UInt64.toNat_sub, UInt64.toNat_add, iI3, iI4]
+      omega
+  · -- the inner selection over the inactive proofs succeeded
+    rw [hr]
+    simp only []
+    obtain ⟨⟨rest, hp⟩, hcov⟩ := selectProofsToSend_ok_nat hs hps hnI (by omega)
+    obtain ⟨_, s2, s3, s4⟩ := hnI.sub hp
+    have : proofsAmount ps ≥ amount + feeOpt m inc ps := by
+      rw [ge_iff_le, UInt64.le_iff_toNat_le, UInt64.toNat_add, s3, s4, Nat.mod_eq_of_lt (by omega)]
+      exact hcov
+    rw [if_pos this]
+    exact ⟨_, rfl⟩
+  · -- the inner selection failed: its error is dropped and no inactive proof is selected
+    rw [hr]
+    simp only []
+    rw [UInt64.lt_iff_toNat_lt, iI3] at hge
+    have hin := haff.inner (by omega)
+    have hactive : amount.toNat + feeOptN m inc active ≤ amountN active := by
+      rcases hin with h | h
+      · obtain ⟨ps, hps⟩ := selectProofsToSend_succeeds hs hnI h
+        exact absurd hps (hfail ps)
+      · exact h
+    split
+    · exact ⟨_, rfl⟩
+    · refine active_ok [] _ ?_
+      have : proofsAmount ([] : List P) = 0 := rfl
+      rw [show amount + 0 - proofsAmount ([] : List P) = amount from UInt64.toNat_inj.1 (by simp [this])]
+      exact hactive
+
 end Gonuts.Model.Select
